@@ -41,7 +41,10 @@ def stdPrims : Prims :=
     hasFilter := fun name => (lookupSig name).isSome }
 
 def fsOfList (files : List (Bytes × Bytes)) : FS :=
-  { read := fun p => match files.find? (fun f => f.1 == p) with
+  { read := fun p =>
+      -- the operating system rejects a name with a NUL byte (EINVAL) or a component over NAME_MAX (ENAMETOOLONG)
+      if p.contains 0 || (p.splitOn 47).any (fun c => c.length > 255) then .otherError else
+      match files.find? (fun f => f.1 == p) with
       | some f => .content f.2
       | none =>
         -- the layout's own directories (and ".") exist but cannot be read as files
